@@ -536,6 +536,12 @@ def filter_rules(ctx, F):
             m = lib.slice_matches(dc, c.bb)
             for k, v in m.items():
                 table[v] = c.name.rsplit("::", 1)[-1]
+    # ... or the dispatch is a lookup of the filter name in a table of (name, decoder) pairs kept in data
+    tdc = lib.table_dispatch_calls(F, dc)
+    for c, lk, j in tdc:
+        for row in lk["rows"]:
+            if row[lk["key_field"]][0] == "bytes" and row[j][0] == "fn":
+                table[row[lk["key_field"]][1]] = lib.fn_behind(F, row[j][1]).rsplit("::", 1)[-1]
     want = {b"FlateDecode": "decompress_zlib", b"LZWDecode": "decompress_lzw", b"ASCII85Decode": "decode_ascii85"}
     ctx.ob("R-TABLE", "filter-dispatch", table == want, "dispatch %s" % {k.decode(): v for k, v in table.items()}, dc.where(),
            what="the filter dispatch table is %s, expected %s" % ({k.decode(): v for k, v in table.items()}, {k.decode(): v for k, v in want.items()}))
@@ -543,6 +549,7 @@ def filter_rules(ctx, F):
     # assigned from the stream content before the loop and from the result of the stage on every turn of the loop.
     import term as _term
     stages = [c for c in dc.calls if c.local and re.search(r"Stream::(decompress_zlib|decompress_lzw|decode_ascii85)$", c.cname)]
+    stages += [c for c, lk, j in tdc]
     okp, whyp = False, "no decoder calls"
     loops_dc = dc.loops()
     if stages:
@@ -589,7 +596,9 @@ def filter_rules(ctx, F):
         okq = False
         if len(pcs) == 1 and pcs[0][0] is fb_:
             c = pcs[0][1]
-            okq = c.dest["l"] == 0 and not c.dest["p"] and lib.same_origin(F, fb_, c.args[1], fb_, 2)
+            # its own DecodeParms parameter (the Option<&Dictionary> one), wherever it stands in either list
+            own = [i for i in range(1, fb_.argc + 1) if "Dictionary" in fb_.lty(i) and fb_.lty(i).startswith("std::option::Option")]
+            okq = c.dest["l"] == 0 and not c.dest["p"] and len(own) == 1 and any(lib.same_origin(F, fb_, a_, fb_, own[0]) for a_ in c.args)
         ctx.ob("R-SIB", "predictor-undone|%s" % fn_.rsplit("::", 1)[-1], okq, "%s returns decompress_predictor(decoded, params)" % fn_, fb_.where(),
                what="%s does not return decompress_predictor(decoded data, its DecodeParms): a stream of this filter with /Predictor >= 2 comes out with the filter-type bytes and the deltas still in it" % fn_)
     # 6. predictor geometry
